@@ -64,7 +64,7 @@ func init() {
 	core.Register(&core.Check{
 		Spec: core.Spec{
 			Prop:        "C01",
-			Rule:        "Random multi-node scenarios (1-5 real nodes; proposals valid and overdrawing at boundary amounts; harness-sealed vertices on tips, stale and equal parents; replays; concurrent proposal blocks; trusted sealers; delayed/partitioned delivery; orphan retries). After every operation the node is snapshotted; every vertex that became confirmed (declared as parent by a live vertex, or checkpointed) is evaluated once with big integers: inflow(issuer) over its full-history ancestors plus the checkpoint must cover its other spends there plus its amount (trusted-sealed, genesis, non-spice exempt). Dropped tips must lose their index entry. Fixed scenarios in every run: the witness of the known finding (double spend checkpointed, then a fresh spend); a 1040-vertex chain with two side tips on the 5th vertex (one overdrawing, one covered) whose parents get checkpointed, then proposals (a tip that is a root of the live graph must still pass the funds test); a truncation cancelled half way followed by further attempts and overdrawing traffic. Non-trivial = confirmation whose issuer has other spends in that history or whose margin is below the amount, and every dropped tip; distinct by (operation, validation path, verdict, amount class, prior spends). Also fixed: a wallet that received 10 and spent 8 long ago spends 3 in a tentative tip; a truncation starts from that tip while 24 proposals race with it (whoever validates the tip, before, during or after the cut, must count the checkpointed part once).",
+			Rule:        "Random multi-node scenarios (1-5 real nodes; proposals valid and overdrawing at boundary amounts; harness-sealed vertices on tips, stale and equal parents; replays; concurrent proposal blocks; trusted sealers; delayed/partitioned delivery; orphan retries). After every operation the node is snapshotted; every vertex that became confirmed (declared as parent by a live vertex, or checkpointed) is evaluated once with big integers: inflow(issuer) over its full-history ancestors plus the checkpoint must cover its other spends there plus its amount (trusted-sealed, genesis, non-spice exempt). Dropped tips must lose their index entry. Fixed scenarios in every run: the witness of the known finding (double spend checkpointed, then a fresh spend); a 1040-vertex chain with two side tips on the 5th vertex (one overdrawing, one covered) whose parents get checkpointed, then proposals (a tip that is a root of the live graph must still pass the funds test); a truncation cancelled half way followed by further attempts and overdrawing traffic. Non-trivial = confirmation whose issuer has other spends in that history or whose margin is below the amount, and every dropped tip; distinct by (operation, validation path, verdict, amount class, prior spends). Also fixed: a wallet that received 10 and spent 8 long ago spends 3 in a tentative tip; a truncation starts from that tip while 24 proposals race with it (whoever validates the tip, before, during or after the cut, must count the checkpointed part once). Also fixed: a wallet drained to exactly zero between two truncations, then the overspend probes (it must not be able to spend a single unit).",
 			Assumptions: []string{ledgerAssume},
 			MinEvals:    300, MinNontriv: 10,
 		},
@@ -126,7 +126,7 @@ func init() {
 	core.Register(&core.Check{
 		Spec: core.Spec{
 			Prop:        "C10",
-			Rule:        "Same scenario engine with rule-breaking offers on every entry point: issuer = proposing node's wallet (local), issuer = sealer for gossiped vertices (also sealed by a wallet that is itself a node), issuer = genesis wallet, transactions with neither data nor spice, each also delivered before its parent and replayed from the orphan buffer. Each forbidden offer must return an error and leave neither vertex, parked entry nor index entry; every snapshot is scanned for self-sealed / genesis-issued / empty vertices; sync streams carrying a forbidden vertex on a tip or as a second root (zero parent hashes, zero left parent) must not yield a loaded node holding it. Non-trivial = forbidden offers; distinct by (rule, entry point, node role). 'No data' is offered in both spellings (absent slice, empty slice). One batch drives the gossip service of a whole node: an orphan, then a forbidden vertex on known parents (self sealed, empty in both spellings, issued by the genesis wallet), then the parent and the replay of the orphan buffer; the ledger must hold the orphan and nothing forbidden.",
+			Rule:        "Same scenario engine with rule-breaking offers on every entry point: issuer = proposing node's wallet (local), issuer = sealer for gossiped vertices (also sealed by a wallet that is itself a node), issuer = genesis wallet, transactions with neither data nor spice, each also delivered before its parent and replayed from the orphan buffer. Each forbidden offer must return an error and leave neither vertex, parked entry nor index entry; every snapshot is scanned for self-sealed / genesis-issued / empty vertices; sync streams carrying a forbidden vertex on a tip or as a second root (zero parent hashes, zero left parent) must not yield a loaded node holding it. Non-trivial = forbidden offers; distinct by (rule, entry point, node role). 'No data' is offered in both spellings (absent slice, empty slice). One batch drives the gossip service of a whole node: an orphan, then a forbidden vertex on known parents (self sealed, empty in both spellings, issued by the genesis wallet), then the parent and the replay of the orphan buffer; the ledger must hold the orphan and nothing forbidden. Fixed scenarios: a sealer the node trusts offers forbidden vertices (the rules do not depend on who seals); vertices of weight 2^64-1, 2^64-2, 2^63 become tips of a joined node and its own wallet, the genesis wallet and an empty transaction are then proposed (the next weight wraps around).",
 			Assumptions: []string{ledgerAssume},
 			MinEvals:    300, MinNontriv: 8,
 		},
